@@ -868,6 +868,8 @@ def san_runs(tier, seed, fl, scale=1.0, with_expr=True, with_examples=True):
         RunSpec("interp", "d", fl, n(6000, 60000)),
         RunSpec("interp", "Q", fl, n(2400, 20000)),
         RunSpec("quad", "d", fl, n(24000, 300000)),
+        # exception paths in the middle of every kind of call (scalar faults)
+        RunSpec("throw", None, fl, n(1120, 22400)),
     ]
     if with_expr:
         runs += expr_runs(tier, seed, flavour=fl, scalars=("d", "Q"),
@@ -971,7 +973,8 @@ reg(Spec(
           "moved-from and interval-free objects and refused calls, primitive "
           "operators, generated operator-expression programs with spline "
           "factors in every placement, forms, cross-grid calls, accessors, "
-          "validation, interpolation, quadrature, the diffusion and "
+          "validation, interpolation, quadrature, calls interrupted by a "
+          "throwing scalar type at every operation in turn, the diffusion and "
           "spline-potential examples) is rebuilt with g++ -fsanitize=address,"
           "undefined -fno-sanitize-recover=all -D_GLIBCXX_ASSERTIONS and re-run "
           "with the same seeds; an ASan/UBSan report, libstdc++ assertion or "
@@ -1305,8 +1308,9 @@ reg(Spec(
 
 def throw_runs(tier, seed):
     """in-place operations interrupted by a throwing scalar type (drv_throw)"""
-    return [RunSpec("throw", None, "plain", q(tier, 4480, 224000)),
-            RunSpec("throw", None, "nochk", q(tier, 2240, 224000))]
+    return [RunSpec("throw", None, "plain", q(tier, 44800, 2240000)),
+            RunSpec("throw", None, "nochk", q(tier, 22400, 1120000)),
+            RunSpec("throw", None, "clang", q(tier, 22400, 1120000))]
 
 
 THROW_RULE = ("A scalar type whose own operations can fail (drv_throw: a "
